@@ -106,6 +106,42 @@ def invariant_violation(sensors):
     return None
 
 
+def attributes(obj):
+    """every attribute of the loaded objects, recursively (the projection only knows the attributes the
+    library has today; an attribute added tomorrow that one format restores and the other does not shows here)"""
+    if isinstance(obj, (str, int, float, bool, type(None))):
+        return obj
+    if isinstance(obj, dict):
+        return {repr(k): attributes(v) for k, v in obj.items()}
+    if isinstance(obj, (list, tuple)) or type(obj).__name__ == "deque":
+        return [type(obj).__name__] + [attributes(x) for x in obj]
+    if hasattr(obj, "__dict__"):
+        return {"__class__": type(obj).__name__, **{k: attributes(v) for k, v in vars(obj).items()}}
+    return repr(obj)
+
+
+def attr_diff(a, b, path="network"):
+    if type(a) is not type(b):
+        return path
+    if isinstance(a, dict):
+        for k in sorted(set(a) | set(b)):
+            if k not in a or k not in b:
+                return f"{path}.{k}"
+            d = attr_diff(a[k], b[k], f"{path}.{k}")
+            if d:
+                return d
+        return None
+    if isinstance(a, list):
+        if len(a) != len(b):
+            return path
+        for i, (x, y) in enumerate(zip(a, b)):
+            d = attr_diff(x, y, f"{path}[{i}]")
+            if d:
+                return d
+        return None
+    return None if a == b else path
+
+
 def round_trip(sensors, work, fmt):
     path = os.path.join(work, f"rt.{fmt}")
     for p in (path, path + ".bak", pu.tmp_name(path)):
@@ -156,7 +192,7 @@ def _run(res, rng, tier, driver, work):
                     "what": f"a network built by a real gateway violates the invariant of the theorems: {bad}",
                     "replay": {"label": label}})
         want = pu.project_reset(sensors)
-        loaded_proj = {}
+        loaded_proj, loaded_attrs = {}, {}
         for fmt in pu.FORMATS:
             try:
                 exc, loaded = round_trip(sensors, work, fmt)
@@ -168,6 +204,11 @@ def _run(res, rng, tier, driver, work):
             res.evaluations += 1
             got = pu.project(loaded)
             loaded_proj[fmt] = got
+            if exc is None:
+                try:
+                    loaded_attrs[fmt] = attributes(loaded)
+                except Exception:  # noqa: BLE001   (not a mapping of node objects: reported by the projection)
+                    pass
             res.count(f"{fmt}:{'gateway' if from_gateway else label.split(' ')[0]}")
             if want != "-":
                 res.distinct.add(digest([fmt, want]))
@@ -183,6 +224,12 @@ def _run(res, rng, tier, driver, work):
                 lines.append(f"P11 {fmt} " + " ".join(pu.wire_state(sensors)))
                 impls.append("untyped" if (exc is not None or not pu.typed(loaded)) else "ok " + got)
                 labels.append(label)
+        where = attr_diff(loaded_attrs["json"], loaded_attrs["pickle"]) if exact and len(loaded_attrs) == 2 else None
+        if where and loaded_proj.get("json") == loaded_proj.get("pickle"):
+            res.oracle_failures.append({"key": {"kind": "formats-differ", "where": where.split(".")[-1]},
+                                        "what": f"JSON and pickle restore different objects: {where} differs "
+                                                f"(an attribute outside the persisted projection)",
+                                        "replay": {"label": label, "attribute": where}})
         if exact and len(loaded_proj) == 2 and loaded_proj["json"] != loaded_proj["pickle"]:
             res.oracle_failures.append({"key": {"kind": "formats-differ"},
                                         "what": "JSON and pickle restore different networks",
@@ -316,9 +363,15 @@ def replay(payload):
                 continue
             want = pu.project_reset(sensors)
             print("original:", want[:1500])
+            attrs = {}
             for fmt in pu.FORMATS:
                 exc, loaded = round_trip(sensors, work, fmt)
                 got = pu.project(loaded)
+                if exc is None:
+                    attrs[fmt] = attributes(loaded)
+                if len(attrs) == 2 and exact and attr_diff(attrs["json"], attrs["pickle"]):
+                    print("JSON and pickle restore different objects:", attr_diff(attrs["json"], attrs["pickle"]))
+                    rc = 1
                 print(fmt, "exception:", exc, "exact:", got == want)
                 if got != want:
                     print("  loaded:", got[:1500])
